@@ -1,0 +1,69 @@
+//go:build verif
+
+// Contracts for package scorch: the doc id reader over a multi-segment snapshot (match-all and
+// doc-id searches; read by /verif/gocv; comment-only effect with the verif tag off).
+//
+// C08: global id = segment offset + local doc number, segments visited in offset order: the ids
+// returned by Next are strictly ascending and Advance lands at or after its target. The per-segment
+// iterators are roaring iterators (assumed contract in zz_verif_unadorned.go: ascending iteration
+// over a fixed set of 32-bit doc numbers).
+
+package scorch
+
+// cursor of the reader in global doc numbers (ghost), and the position of an iterator in its reader
+//@ ghostfield IndexSnapshotDocIDReader.dstarted bool
+//@ ghostfield IndexSnapshotDocIDReader.dlast uint64
+//@ ghostfield roaring.IntIterable.dpos int
+
+// one iterator per segment, pairwise distinct; the doc numbers of segment k lie below the next offset
+//@ spec drShape(i *IndexSnapshotDocIDReader) bool = i.snapshot != nil && offsetsOK(i.snapshot) && len(i.iterators) == len(i.snapshot.offsets) && 0 <= i.segmentOffset && i.segmentOffset <= len(i.iterators) && \
+//@     forall(k, 0, len(i.iterators), i.iterators[k] != nil && i.iterators[k].dpos == k && i.snapshot.offsets[k] < 4611686018427387904) && \
+//@     forall(k, 0, len(i.iterators)-1, all(x, uint32, implies(pkset(i.iterators[k], x), i.snapshot.offsets[k] + uint64(x) < i.snapshot.offsets[k+1])))
+// later segments are untouched; what the current segment can still deliver lies beyond the last id
+// returned, which lies before the next segment
+//@ spec drCursor(i *IndexSnapshotDocIDReader) bool = forall(k, i.segmentOffset+1, len(i.iterators), i.iterators[k].pkfrom == 0) && \
+//@     implies(i.dstarted && i.segmentOffset < len(i.iterators), i.dlast < i.snapshot.offsets[i.segmentOffset] + i.iterators[i.segmentOffset].pkfrom) && \
+//@     implies(i.dstarted && i.segmentOffset + 1 < len(i.iterators), i.dlast < i.snapshot.offsets[i.segmentOffset+1]) && \
+//@     implies(i.segmentOffset < len(i.iterators), i.iterators[i.segmentOffset].pkfrom <= 4294967296)
+
+// what has been consumed lies at or before the last id returned (nothing is consumed before the first id)
+//@ spec drConsumed(i *IndexSnapshotDocIDReader) bool = forall(k, 0, len(i.iterators), all(x, uint32, implies(pkset(i.iterators[k], x) && uint64(x) < i.iterators[k].pkfrom, i.dstarted && i.snapshot.offsets[k] + uint64(x) <= i.dlast))) && \
+//@     forall(k, 0, i.segmentOffset, all(x, uint32, implies(pkset(i.iterators[k], x), uint64(x) < i.iterators[k].pkfrom)))
+
+//@ func IndexSnapshotDocIDReader.Next
+//@   props C08
+//@   mode int
+//@   reveal offsetsOK
+//@   requires i != nil && drShape(i) && drCursor(i) && drConsumed(i)
+//@   modifies i.segmentOffset, i.dstarted, i.dlast, roaring.IntIterable.pkfrom, roaring.IntIterable.pkhas, roaring.IntIterable.pkval
+//@   at return: ghost i.dstarted = i.dstarted || (result1 == nil && result0 != nil)
+//@   at return: ghost i.dlast = ite(result1 == nil && result0 != nil, idNum(result0), i.dlast)
+//@   ensures implies(result1 == nil, drShape(i) && drCursor(i))
+//@   ensures implies(result1 == nil, drConsumed(i))
+//@   ensures implies(result1 == nil && result0 != nil, len(result0) == 8 && implies(old(i.dstarted), idNum(result0) > old(i.dlast)) && i.dstarted && i.dlast == idNum(result0))
+//@   ensures implies(result0 == nil, i.dstarted == old(i.dstarted) && i.dlast == old(i.dlast))
+//@   ensures i.snapshot == old(i.snapshot) && i.iterators == old(i.iterators)
+// nothing skipped: every document not yet consumed lies at or after the result; nil: none is left
+//@   ensures implies(result1 == nil && result0 != nil, forall(k, 0, len(i.iterators), all(x, uint32, implies(pkset(i.iterators[k], x) && uint64(x) >= old(i.iterators[k].pkfrom) && k >= old(i.segmentOffset), i.snapshot.offsets[k] + uint64(x) >= idNum(result0)))))
+//@   ensures implies(result1 == nil && result0 == nil, forall(k, old(i.segmentOffset), len(i.iterators), all(x, uint32, implies(pkset(i.iterators[k], x), uint64(x) < old(i.iterators[k].pkfrom)))))
+//@   ensures forall(k, 0, len(i.iterators), i.iterators[k].pkfrom >= old(i.iterators[k].pkfrom)) && i.segmentOffset >= old(i.segmentOffset)
+//@   loop 0: invariant drConsumed(i)
+//@   loop 0: invariant drShape(i) && drCursor(i) && i.dstarted == old(i.dstarted) && i.dlast == old(i.dlast) && i.snapshot == old(i.snapshot) && i.iterators == old(i.iterators)
+//@   loop 0: invariant i.segmentOffset >= old(i.segmentOffset) && forall(k, 0, len(i.iterators), i.iterators[k].pkfrom >= old(i.iterators[k].pkfrom)) && forall(k, i.segmentOffset, len(i.iterators), i.iterators[k].pkfrom == old(i.iterators[k].pkfrom))
+//@   loop 0: invariant forall(k, old(i.segmentOffset), i.segmentOffset, all(x, uint32, implies(pkset(i.iterators[k], x), uint64(x) < old(i.iterators[k].pkfrom))))
+//@   loop 0: decreases len(i.iterators) - i.segmentOffset
+
+// Advance steps forward until the id is at or after the target
+//@ func IndexSnapshotDocIDReader.Advance
+//@   props C08
+//@   mode int
+//@   requires i != nil && drShape(i) && drCursor(i) && drConsumed(i)
+//@   modifies i.segmentOffset, i.dstarted, i.dlast, roaring.IntIterable.pkfrom, roaring.IntIterable.pkhas, roaring.IntIterable.pkval
+//@   ensures implies(result1 == nil, drShape(i) && drCursor(i))
+//@   ensures implies(result1 == nil, drConsumed(i))
+//@   ensures implies(result1 == nil && result0 != nil, idNum(result0) >= idNum(ID) && implies(old(i.dstarted), idNum(result0) > old(i.dlast)) && i.dstarted && i.dlast == idNum(result0))
+//@   ensures implies(result1 == nil && result0 != nil, forall(k, old(i.segmentOffset), len(i.iterators), all(x, uint32, implies(pkset(i.iterators[k], x) && uint64(x) >= old(i.iterators[k].pkfrom) && i.snapshot.offsets[k] + uint64(x) >= idNum(ID), i.snapshot.offsets[k] + uint64(x) >= idNum(result0)))))
+//@   ensures implies(result1 == nil && result0 == nil, forall(k, old(i.segmentOffset), len(i.iterators), all(x, uint32, implies(pkset(i.iterators[k], x) && uint64(x) >= old(i.iterators[k].pkfrom), i.snapshot.offsets[k] + uint64(x) < idNum(ID)))))
+//@   loop 0: invariant drConsumed(i) && i.snapshot == old(i.snapshot) && i.iterators == old(i.iterators) && i.segmentOffset >= old(i.segmentOffset) && forall(k, 0, len(i.iterators), i.iterators[k].pkfrom >= old(i.iterators[k].pkfrom))
+//@   loop 0: invariant forall(k, old(i.segmentOffset), len(i.iterators), all(x, uint32, implies(pkset(i.iterators[k], x) && uint64(x) >= old(i.iterators[k].pkfrom), i.snapshot.offsets[k] + uint64(x) >= idNum(next) || i.snapshot.offsets[k] + uint64(x) < idNum(ID))))
+//@   loop 0: invariant drShape(i) && drCursor(i) && next != nil && i.dstarted && i.dlast == idNum(next) && implies(old(i.dstarted), idNum(next) > old(i.dlast)) && err == nil
